@@ -42,7 +42,12 @@ META = {
     "without CRS, different CRSs (pyproj values measured), GCPGeoBox bases, singular affines, and compares the chosen path and "
     "the ordered dict; query geometries of every shape (concave, holes, multi-part with overlapping / nested / interleaved part "
     "boxes in either order, lines, points, collections; same CRS and lon/lat) are judged per tile by a brute-force shapely "
-    "oracle.",
+    "oracle.  Linear path with the map snap_affine really returns (Props/C12GiSnap): completeness against the snapped map, "
+    "transfer to the true map for every overlap deeper than the displacement, and the displacement bound itself - snap_scale "
+    "and maybe_int move a value by less than their tolerance in every branch (reciprocal branch included), so the image of a "
+    "point moves by at most stol*|u| + tol*|v| + ttol source pixels.  Different-CRS footprints: the arithmetic of "
+    "footprint(crs, buffer, npoints) (pad = buffer pixels of the coarser axis, also on mirrored rasters; densification = "
+    "longer side / npoints) is modelled and tied; pyproj / shapely stay parameters.",
     "note": "Trusted: Lean kernel + {propext, Classical.choice, Quot.sound}; shapely predicates and pyproj are "
     "parameters (general path: completeness under the footprint-superset hypothesis, `_partial`; cross-CRS pairs are "
     "sampled by the oracle only, threshold 0.5 px^2); same-CRS oracle: overlap > 1e-6 source px^2 and, on the linear "
@@ -864,6 +869,39 @@ GLOBAL_BOXES = [(-180, -90, 180, -55), (-180, 55, 180, 90), (-180, -85, 180, 85)
 GLOBAL_KEY = "tiles-query-global-box"
 
 
+_TR_CACHE = {}
+
+
+def shared_transformer(a, b):
+    """one pyproj Transformer per ordered CRS pair for the whole run (constructing one costs 10-20 ms); built straight
+    from the CRS definitions by pyproj, never through odc.geo.crs"""
+    from pyproj import CRS as PCRS
+    from pyproj import Transformer
+
+    k = (str(a), str(b))
+    t = _TR_CACHE.get(k)
+    if t is None:
+        t = _TR_CACHE[k] = Transformer.from_crs(PCRS.from_user_input(k[0]), PCRS.from_user_input(k[1]), always_xy=True)
+    return t
+
+
+# the REGIONS by kind of CRS: the quick tier treats one region of every kind per seed (plus two more), thorough all
+REGION_KINDS = {"utm": ("EPSG:32755", "EPSG:32633"), "conic": ("EPSG:3577", "EPSG:3035", "EPSG:5070"),
+                "geographic": ("EPSG:4283", "EPSG:4258", "EPSG:4269", "EPSG:4612"), "wgs84": ("EPSG:4326",),
+                "polar": ("EPSG:3031", "EPSG:3413"), "mercator": ("EPSG:3857",)}
+
+
+def regions_for(R):
+    if not R.quick:
+        return list(REGIONS)
+    rng = R.rng
+    by = {g[0]: g for g in REGIONS}
+    pick = [by[rng.choice(v)] for v in REGION_KINDS.values()]
+    rest = [g for g in REGIONS if g not in pick]
+    pick += rng.sample(rest, 1)
+    return [g for g in REGIONS if g in pick]
+
+
 def _tile_probe_points(gbt, idx, k=3):
     """interior points of a tile in world coordinates (centre and an inner k x k lattice)"""
     y0, y1, x0, x1 = tile_rects(gbt)[idx]
@@ -883,7 +921,7 @@ def crs_kinds_stream(R: Run, geom, GeoBox, GeoboxTiles, Affine):
     BoundingBox = geom.BoundingBox
 
     def tr(a, b):
-        return Transformer.from_crs(a, b, always_xy=True)
+        return shared_transformer(a, b)
 
     def mk(region, shrink=1.0, shift=(0.0, 0.0), tile=None):
         crs, (l, b, r, t), res, _ = region
@@ -896,7 +934,7 @@ def crs_kinds_stream(R: Run, geom, GeoBox, GeoboxTiles, Affine):
         return GeoboxTiles(gb, tile)
 
     n_q = R.pick(2, 12)
-    for region in REGIONS:
+    for region in regions_for(R):
         crs, _box, _res, others = region
         crs_churn(rng, 30)
         gbt = mk(region)
@@ -1039,7 +1077,7 @@ def crs_kinds_stream(R: Run, geom, GeoBox, GeoboxTiles, Affine):
                 R.oracle(not miss, "grid-intersect-misses-dependency", case,
                          f"interior points of dst tiles fall well inside src tiles that are not listed: {sorted(set(miss))[:6]}",
                          sig="deps|crs-kinds|" + dname)
-                again = guarded(lambda: dst.grid_intersect(src))
+                again = guarded(lambda: dst.grid_intersect(src)) if (not R.quick or rng.random() < 0.34) else snap
                 R.oracle(deps == snap and again == snap, "result-mutated-by-later-call", case,
                          "grid_intersect result changed after / differs on a second call", sig="held", trivial=True)
             # far away raster in the other CRS (another region using that CRS, if any): empty graph, no error
@@ -1254,7 +1292,7 @@ def crs_churn_stream(R: Run, geom, GeoBox, GeoboxTiles, Affine):
         order = tm[:]
         rng.shuffle(order)
         if R.quick:
-            order = order[: 170]
+            order = order[: 110]
         for i, sp in enumerate(order):
             if i % 40 == 39:
                 crs_churn(rng, 60)
@@ -1270,7 +1308,7 @@ def crs_churn_stream(R: Run, geom, GeoBox, GeoboxTiles, Affine):
             if isinstance(got, str):
                 R.oracle(False, "tiles-query-raises", case, f"tiles() raised {got}", sig="churn-raises")
                 continue
-            tr = Transformer.from_crs(pc, PCRS.from_user_input(wcrs), always_xy=True)   # fresh, straight from pyproj
+            tr = shared_transformer(sp, wcrs)   # straight from pyproj (never odc.geo.crs), one per CRS pair and run
             x0, y0, x1, y1 = bbox
             px, py = tr.transform([x0, x0, x1, x1], [y0, y1, y1, y0])
             if not all(map(math.isfinite, list(px) + list(py))):
@@ -1288,7 +1326,7 @@ def crs_churn_stream(R: Run, geom, GeoBox, GeoboxTiles, Affine):
                      f"after {n_seen}+ CRSs in the process: tiles {sorted(got - may)} are away from the query", sig="churn|extra")
         gc.collect()
         # dependency graphs from UTM rasters of random zones to the world rasters, judged by dense independent sampling
-        zones = [(rng.randint(1, 60), rng.random() < 0.5) for _k in range(R.pick(3, 12))]
+        zones = [(rng.randint(1, 60), rng.random() < 0.5) for _k in range(R.pick(2, 12))]
         if R.match_known(GLOBAL_RASTER_KEY) is not None:
             zones += [(60, True), (1, False)]     # next to the antimeridian, where the padded global footprint wraps
         for zone, south in zones:
@@ -1326,7 +1364,7 @@ def dense_dep_oracle(R: Run, dst, src, case, sig, k=6, restrict=None, key=None):
     if isinstance(deps, str):
         R.oracle(False, key or "grid-intersect-raises", case, f"grid_intersect raised {deps}", sig=sig + "|raises")
         return None
-    tr = Transformer.from_crs(PCRS.from_user_input(str(dst.base.crs)), PCRS.from_user_input(str(src.base.crs)), always_xy=True)
+    tr = shared_transformer(str(dst.base.crs), str(src.base.crs))
     DA, SA = dst.base.affine, src.base.affine
     invS = ~SA
     drect = tile_rects(dst)
